@@ -89,6 +89,12 @@ try:
         check(tuple(want) == tuple(got), "hook_gcode(%r) = %r, OctoPrint says %r" % (cmd, got, want))
     for line in ["G1 X1 ; c", "M117 a\\; b ; c", "M117 a\\\\; b", ";", "G1 X1", "M117 \\", "a;b;c"]:
         check(octo_strip(line) == strip_comment(line), "strip_comment(%r)" % (line,))
+    from vp.harness import normalise
+    from octoprint.util.comm import _normalize_command_handler_result as octo_norm
+    for res in [None, "M110", ("M110",), (None,), ["M110", "M117 x"], [("M110",), "M117 x"], [], ["M110", None], [(None,), "G1 X1"],
+                [("G92 E1", "resync"), ("G0 X1 Y1",)], ("M110", "t"), [None], ["G1 X5"]]:
+        want = [r[0] for r in octo_norm("G1 X5", None, "G1", None, None, res)]
+        check(normalise(res, "G1 X5") == want, "normalise(%r) = %r, OctoPrint sends %r" % (res, normalise(res, "G1 X5"), want))
     env = _plugin_env()
     st = env["settings"]()
     for val in RAW_BOOLS + [None, 0.0, "y", "on", "", "No", "YES", 3.5]:
